@@ -13,6 +13,7 @@ op recvx <mid> <u> <v>             impl first <fwd> | dup  same, no exact predic
 op quiet <mid>                     impl dlv <nodes>        network quiescent; nodes delivered to
 op quietx <mid>                    impl dlv <nodes>        same, at-least-once clause not applied
 op sendx <mid> <u> <w>             impl ok                 u answered an IWANT of w (Spec only)
+op livelock                        impl -                  the network never became quiescent
 ```
 -/
 namespace Driver.C27
@@ -135,6 +136,7 @@ def op (d : DS) (args : List String) : DS × String :=
       else (d, "inflight " ++ toString m.st.flight.length)
     | none => (d, "unknown-message")
   | ["quietx", _] => (d, "-")
+  | ["livelock"] => (d, "quiescent")
   | _ => (d, "bad-op")
 
 def verdict : Option String → String
@@ -145,6 +147,7 @@ def verdict : Option String → String
 def spec (d : DS) (args outs : List String) : DS × String :=
   match args with
   | ["hb", _] => (d, if outs == ["ok"] then "ok" else "FAIL:unparsable")
+  | ["livelock"] => (d, "FAIL:no_quiescence")
   | ["snap", m, e] =>
     match lists m, lists e with
     | some m, some e => ({ d with mesh := m, exp := e }, if outs == ["ok"] then "ok" else "FAIL:unparsable")
